@@ -447,6 +447,9 @@ func (rn *runner) packagingCase(s *wsState, p packaging) {
 		} else {
 			rn.count("pack_equal_"+p.name, 1)
 		}
+		if p.mode == "export" && s.def.Note == "vendored-wkt" {
+			rn.count("pack_export_equal_with_vendored_wkt", 1)
+		}
 		rn.r.Distinct("pk|" + s.def.Name + "|" + p.name)
 	}
 }
